@@ -2103,6 +2103,39 @@ theorem acks_mono {cfg : Cfg} {now : Nat} {seeds : List Nat} {clients : Nat} {b0
     have h2 := (C11_layerB_acks_grow (hinv_reach (stateAt_reach hr0 hrun (Or.inr ⟨a, hx⟩))) hstep).1
     omega
 
+/-- induction along the rest of a run: a property kept by every action of every reachable state holds from the `m`-th
+    state on -/
+theorem run_induct {cfg : Cfg} {now : Nat} {seeds : List Nat} {clients : Nat} {b0 b : BState}
+    {h : List (BState × Act)} (hr0 : Reach cfg now seeds clients b0) (hrun : RunH b0 h b) (P : BState → Prop)
+    (hstep : ∀ (s s' : BState) (a : Act) (o o' : Oracle), Reach cfg now seeds clients s → P s →
+      stepB s a o = .ok (s', o') → P s')
+    {m : Nat} {s0 : BState} (hst0 : StateAt h b m s0) (h0 : P s0) :
+    ∀ (d : Nat) (s : BState), StateAt h b (m + d) s → P s := by
+  intro d
+  induction d with
+  | zero => intro s hst; rw [← hst0.inj hst]; exact h0
+  | succ d ih =>
+    intro s' hst'
+    obtain ⟨s1, a, o, o', hx, hs⟩ := stateAt_succ hrun (m := m + d) hst'
+    have hst1 : StateAt h b (m + d) s1 := Or.inr ⟨a, hx⟩
+    exact hstep s1 s' a o o' (stateAt_reach hr0 hrun hst1) (ih s1 hst1) hs
+
+/-- the `r`-th action is the `cmd.send` of client `i` that puts `cmd` at the TAIL of the queue, with the fresh handle
+    `hh` (the next free acknowledgement cell) -/
+def Sent (h : List (BState × Act)) (b : BState) (i r : Nat) (cmd : Cmd) (hh : Nat) : Prop :=
+  ∃ s s', At h r (s, .client i) ∧ StateAt h b (r + 1) s' ∧ s.cl[i]? = some (.send cmd) ∧ hh = s.g.acks.length ∧
+    s'.g.queue = s.g.queue ++ [(cmd, some hh)] ∧ s'.g.acks = s.g.acks ++ [.pending]
+
+/-- a call that returns a PENDING acknowledgement returned from its `cmd.send` -/
+theorem returned_sent {b0 b : BState} {h : List (BState × Act)} (hrun : RunH b0 h b) {i r hh : Nat}
+    (hret : Returned h b i r (.ack hh .pending)) : ∃ cmd, Sent h b i r cmd hh := by
+  obtain ⟨s, s', hx, hst', hidle, hres⟩ := hret
+  obtain ⟨s'', o, o', _, hstep, hst'', _⟩ := runH_at hrun hx
+  have := hst''.inj hst'
+  subst this
+  obtain ⟨cmd, hpc, h1, h2, h3⟩ := ret_ack_pending (by simpa [stepB] using hstep) hidle hres
+  exact ⟨cmd, s, s'', hx, hst', hpc, h1, h2, h3⟩
+
 end PD
 end B
 end Cached
